@@ -58,6 +58,9 @@ pub struct OSig {
     pub formatted: String,
 }
 
+/// switched on by the C16 check: also run the iterator protocol on `parameters_types()` of every signature
+pub static SIG_PROTOCOL: std::sync::atomic::AtomicBool = std::sync::atomic::AtomicBool::new(false);
+
 pub trait Subj {
     fn label(&self) -> &'static str;
     fn remap_class<'a>(&'a self, class: &str) -> Option<&'a str>;
@@ -71,6 +74,8 @@ pub trait Subj {
         params: Option<&'a str>,
         out: &mut Vec<Fr<'a>>,
     );
+    /// iterator protocol of the frame iterator for this query (see iterp.rs); None = conforms
+    fn frame_protocol<'a>(&'a self, class: &'a str, method: &'a str, line: usize, file: Option<&'a str>, params: Option<&'a str>) -> Option<String>;
     /// class, message of the remapped throwable
     fn remap_throwable<'a>(&'a self, class: &'a str, message: Option<&'a str>) -> Option<(&'a str, Option<&'a str>)>;
     fn remap_stacktrace(&self, text: &str) -> Result<String, String>;
@@ -79,6 +84,9 @@ pub trait Subj {
     fn deobfuscate_signature(&self, sig: &str) -> Option<OSig>;
     /// build a typed trace from the owned form, remap it; (remapped, printed input, printed remapped)
     fn remap_typed(&self, t: &OTrace) -> (OTrace, String, String);
+    /// typed trace whose frames are built with `StackFrame::with_parameters(class, method, params)`; the frames of
+    /// the remapped trace, read through the accessors
+    fn remap_typed_param_frames<'a>(&'a self, frames: &'a [(String, String, String)]) -> Vec<Fr<'a>>;
 }
 
 macro_rules! subject_module {
@@ -240,6 +248,18 @@ macro_rules! subject_module {
                         });
                     }
                 }
+                fn frame_protocol<'a>(&'a self, class: &'a str, method: &'a str, line: usize, file: Option<&'a str>, params: Option<&'a str>) -> Option<String> {
+                    let frame = mk_frame(class, method, line, file, params);
+                    let this: &'a ProguardMapper<'a> = self;
+                    let fref: &StackFrame<'a> = &frame;
+                    // SAFETY: the frame outlives every iterator created below (same reasoning as `ext`)
+                    let fref: &'a StackFrame<'a> = unsafe { std::mem::transmute(fref) };
+                    crate::iterp::iter_protocol(
+                        &|| this.remap_frame(fref),
+                        &|f: StackFrame<'_>| -> Fr<'a> { Fr { class: ext(f.class()), method: ext(f.method()), line: f.line(), file: f.file().map(ext), params: f.parameters().map(ext) } },
+                        100_000,
+                    )
+                }
                 fn remap_throwable<'a>(
                     &'a self,
                     class: &'a str,
@@ -264,7 +284,19 @@ macro_rules! subject_module {
                     ProguardMapper::deobfuscate_signature(self, sig).map(|d| OSig {
                         params: d.parameters_types().map(|s| s.to_string()).collect(),
                         ret: d.return_type().to_string(),
-                        formatted: d.format_signature(),
+                        formatted: {
+                            // the same signature through every public door: format_signature(), Display, and the
+                            // parameter iterator's protocol (a discrepancy is folded into the observed text)
+                            let a = d.format_signature();
+                            let b = d.to_string();
+                            let mut out = if a == b { a } else { format!("{} [Display prints {:?}]", a, b) };
+                            if SIG_PROTOCOL.load(std::sync::atomic::Ordering::Relaxed) && d.parameters_types().count() >= 2 {
+                                if let Some(p) = crate::iterp::iter_protocol(&|| d.parameters_types(), &|x: &str| x.to_string(), 100_000) {
+                                    out.push_str(&format!(" [parameters_types(): {}]", p));
+                                }
+                            }
+                            out
+                        },
                     })
                 }
                 fn remap_typed(&self, t: &OTrace) -> (OTrace, String, String) {
@@ -272,6 +304,12 @@ macro_rules! subject_module {
                     let printed = typed.to_string();
                     let r = self.remap_stacktrace_typed(&typed);
                     (own_trace(&r), printed, r.to_string())
+                }
+                fn remap_typed_param_frames<'a>(&'a self, frames: &'a [(String, String, String)]) -> Vec<Fr<'a>> {
+                    let fs: Vec<StackFrame<'a>> = frames.iter().map(|(c, m, p)| StackFrame::with_parameters(c, m, p)).collect();
+                    let t = StackTrace::new(Some(Throwable::new("a.E")), fs);
+                    let r = self.remap_stacktrace_typed(&t);
+                    r.frames().iter().map(|f| Fr { class: ext(f.class()), method: ext(f.method()), line: f.line(), file: f.file().map(ext), params: f.parameters().map(ext) }).collect()
                 }
             }
 
@@ -307,6 +345,18 @@ macro_rules! subject_module {
                         });
                     }
                 }
+                fn frame_protocol<'a>(&'a self, class: &'a str, method: &'a str, line: usize, file: Option<&'a str>, params: Option<&'a str>) -> Option<String> {
+                    let frame = mk_frame(class, method, line, file, params);
+                    let this: &'a ProguardCache<'a> = self;
+                    let fref: &StackFrame<'a> = &frame;
+                    // SAFETY: the frame outlives every iterator created below (same reasoning as `ext`)
+                    let fref: &'a StackFrame<'a> = unsafe { std::mem::transmute(fref) };
+                    crate::iterp::iter_protocol(
+                        &|| this.remap_frame(fref),
+                        &|f: StackFrame<'_>| -> Fr<'a> { Fr { class: ext(f.class()), method: ext(f.method()), line: f.line(), file: f.file().map(ext), params: f.parameters().map(ext) } },
+                        100_000,
+                    )
+                }
                 fn remap_throwable<'a>(
                     &'a self,
                     class: &'a str,
@@ -331,7 +381,19 @@ macro_rules! subject_module {
                     ProguardCache::deobfuscate_signature(self, sig).map(|d| OSig {
                         params: d.parameters_types().map(|s| s.to_string()).collect(),
                         ret: d.return_type().to_string(),
-                        formatted: d.format_signature(),
+                        formatted: {
+                            // the same signature through every public door: format_signature(), Display, and the
+                            // parameter iterator's protocol (a discrepancy is folded into the observed text)
+                            let a = d.format_signature();
+                            let b = d.to_string();
+                            let mut out = if a == b { a } else { format!("{} [Display prints {:?}]", a, b) };
+                            if SIG_PROTOCOL.load(std::sync::atomic::Ordering::Relaxed) && d.parameters_types().count() >= 2 {
+                                if let Some(p) = crate::iterp::iter_protocol(&|| d.parameters_types(), &|x: &str| x.to_string(), 100_000) {
+                                    out.push_str(&format!(" [parameters_types(): {}]", p));
+                                }
+                            }
+                            out
+                        },
                     })
                 }
                 fn remap_typed(&self, t: &OTrace) -> (OTrace, String, String) {
@@ -339,6 +401,12 @@ macro_rules! subject_module {
                     let printed = typed.to_string();
                     let r = self.remap_stacktrace_typed(&typed);
                     (own_trace(&r), printed, r.to_string())
+                }
+                fn remap_typed_param_frames<'a>(&'a self, frames: &'a [(String, String, String)]) -> Vec<Fr<'a>> {
+                    let fs: Vec<StackFrame<'a>> = frames.iter().map(|(c, m, p)| StackFrame::with_parameters(c, m, p)).collect();
+                    let t = StackTrace::new(Some(Throwable::new("a.E")), fs);
+                    let r = self.remap_stacktrace_typed(&t);
+                    r.frames().iter().map(|f| Fr { class: ext(f.class()), method: ext(f.method()), line: f.line(), file: f.file().map(ext), params: f.parameters().map(ext) }).collect()
                 }
             }
 
